@@ -431,6 +431,7 @@ type tdoc struct {
 	ref      func([]byte) error // reference decoder of the encoder's library (nil: prefixes must all fail)
 	garbage  [][]byte           // appended: must be a decode error
 	trailOK  bool               // binary: trailing bytes must not change the value
+	val      any                // bson: the source value (after bsonExpected)
 }
 
 func csvRef(b []byte) error {
@@ -479,7 +480,7 @@ func genDocs(r *hlib.Rand, n int, want map[string]bool) []*tdoc {
 			v := genTextValue(vr, textCaps{null: true, floats: true, infNaN: true, depth: 4}, 0, true)
 			if b, err := yaml.Marshal(forNative(v)); err == nil {
 				ds = append(ds, &tdoc{format: "yaml", doc: b, expected: anyString(v),
-					ref:     func(b []byte) error { var x any; d := yaml.NewDecoder(bytes.NewReader(b)); if err := d.Decode(&x); err != nil { return err }; switch x.(type) { case map[string]any, []any: default: return errors.New("root") }; if err := d.Decode(new(any)); !errors.Is(err, io.EOF) { return errors.New("trailing") }; return nil },
+					ref:     func(b []byte) error { var x any; d := yaml.NewDecoder(bytes.NewReader(b)); if err := d.Decode(&x); err != nil { return err }; switch x.(type) { case map[string]any, map[any]any, []any: default: return errors.New("root") }; if err := d.Decode(new(any)); !errors.Is(err, io.EOF) { return errors.New("trailing") }; return nil },
 					garbage: [][]byte{[]byte("---\na: 1\n"), []byte("\t}\n")}})
 			}
 		}
@@ -549,15 +550,31 @@ func genDocs(r *hlib.Rand, n int, want map[string]bool) []*tdoc {
 			for j, k := range ks {
 				vs[j] = m[k]
 			}
-			ds = append(ds, &tdoc{format: "bson", doc: bsonDoc(ks, vs, vr), expected: anyString(bsonExpected(m)), trailOK: true})
+			ds = append(ds, &tdoc{format: "bson", doc: bsonDoc(ks, vs, vr), expected: anyString(bsonExpected(m)), trailOK: true, val: bsonExpected(m)})
 		}
 	}
 	return ds
 }
 
-// NaN: text formats carry "nan" without a payload
-func normNaN(s string) string {
-	return s
+// stripBOM: what d.FieldUTF8 makes of the strings and names of a bson document
+func stripBOM(v any) any {
+	switch v := v.(type) {
+	case string:
+		return strings.TrimPrefix(v, "\ufeff")
+	case []any:
+		o := make([]any, len(v))
+		for i, x := range v {
+			o[i] = stripBOM(x)
+		}
+		return o
+	case map[string]any:
+		o := map[string]any{}
+		for k, x := range v {
+			o[strings.TrimPrefix(k, "\ufeff")] = stripBOM(x)
+		}
+		return o
+	}
+	return v
 }
 
 func runText(o *hlib.Out, r *hlib.Rand, n int, want map[string]bool) {
@@ -626,14 +643,39 @@ func runText(o *hlib.Out, r *hlib.Rand, n int, want map[string]bool) {
 		}
 		op := fmt.Sprintf("%s %s %s", p.d.format, p.kind, hlib.Hex(p.in))
 		verdict, why := "OK", ""
+		// known finding utf8-bom-stripped: bson names and strings are read with d.FieldUTF8, which drops a
+		// leading U+FEFF; excused only when fq's result is the source with exactly those marks removed
+		bomStripped := func() bool {
+			if p.d.format != "bson" || !strings.Contains(p.d.expected, "sefbbbf") {
+				return false
+			}
+			e := anyString(stripBOM(p.d.val))
+			if strings.Contains(e, "dNaN") {
+				return nanRE.ReplaceAllStringFunc(obs, func(t string) string {
+					if strings.HasSuffix(t, "ff0000000000000") {
+						return t
+					}
+					return "dNaN"
+				}) == "ok "+e+" -"
+			}
+			return obs == "ok "+e+" -"
+		}
 		switch p.kind {
 		case "full":
 			if obsN != "ok "+p.d.expected+" -" {
-				verdict, why = "PROPFAIL", "expected=ok "+p.d.expected+" got="+obs
+				if bomStripped() {
+					verdict, why = "KNOWN", "utf8-bom-stripped"
+				} else {
+					verdict, why = "PROPFAIL", "expected=ok "+p.d.expected+" got="+obs
+				}
 			}
 		case "trail":
 			if obsN != "ok "+p.d.expected+" -" {
-				verdict, why = "PROPFAIL", "trailing data changed the value: expected=ok "+p.d.expected+" got="+obs
+				if bomStripped() {
+					verdict, why = "KNOWN", "utf8-bom-stripped"
+				} else {
+					verdict, why = "PROPFAIL", "trailing data changed the value: expected=ok "+p.d.expected+" got="+obs
+				}
 			}
 		case "musterr":
 			if obs != "err" {
